@@ -111,7 +111,7 @@ pub fn run(ctx: &Ctx) -> Outcome {
                                 if cfg.is_toy() {
                                     let got: Vec<Vec<u8>> = log.iter().filter(|l| l.dir == b'E').map(|l| l.input.clone()).collect();
                                     let want_blocks: Vec<Vec<u8>> = (0..need).map(|j| { let idx = lim - k + j; if d.mode == "belt" { rf::belt_counter_block(&c, &iv, idx) } else { rf::ctr_block(&iv, d.w, d.be, idx) } }).collect();
-                                    ensure!(match_subsequence(&got, &want_blocks).is_ok(), format!("counter_block_wrong/{}/partial", d.mode), "{}: the counter blocks of indices {}.. were not fed to E in order; E received [{}]", d.ty, lim - k, got.iter().take(6).map(|b| short(b)).collect::<Vec<_>>().join(" "));
+                                    ensure!(first_missing(&got, &want_blocks).is_none(), format!("counter_block_wrong/{}/partial", d.mode), "{}: a counter block of indices {}.. was never fed to E; E received [{}]", d.ty, lim - k, got.iter().take(6).map(|b| short(b)).collect::<Vec<_>>().join(" "));
                                 }
                             } else {
                                 ensure!(r.is_err(), format!("partial_beyond_limit_succeeded/{}/{}", shape, d.mode), "{} with {} blocks remaining: try_apply_keystream_partial({} bytes) needs {} blocks but returned Ok (the counter wraps and keystream is reused)", d.ty, k, n, need);
